@@ -60,6 +60,8 @@ type Case struct {
 	Oracle bool   `json:"oracle"` // false: model comparison only
 	// true: too big for a Coq term, judged by the oracle only
 	NoModel bool `json:"nomodel,omitempty"`
+	// concurrent mode (concurrent.go): overlapping submissions, oracle only
+	Conc *ConcSpec `json:"conc,omitempty"`
 }
 
 func hid(u uint64) string { return fmt.Sprintf("%x", u) }
@@ -302,6 +304,10 @@ func canonKey(cs Case) string {
 }
 
 func run(c *vh.Ctx, cs Case) {
+	if cs.Conc != nil {
+		runConcurrent(c, cs)
+		return
+	}
 	s := openStore()
 	ids, days := idsAndDays(cs)
 	idPos := map[string]int{}
@@ -950,7 +956,9 @@ func main() {
 		"interleaved, older rounds replayed; inv-* kinds inject refused shapes (gap, missing, mixedday, zerots, zerohash, noleader), " +
 		"anom-* kinds accepted anomalies (model only), chaos random rounds/subsets; biground: one proposer, a round of K snapshots " +
 		"(quick 255,256,257,300 and ~300 with 30..50 signers each; thorough also 390,512,1000 and random 200..600), re-submitted, grown, " +
-		"next round on the next day, replayed. non-trivial = some call changed a counter; " +
+		"next round on the next day, replayed; concurrent (oracle only): 4..8 proposers sharing 10..30 signers submit round by round at the " +
+		"same moment (prefix, full set, full set again; 300 + 216 overlapping calls in quick), ErrConflict retried as kernel/mint.go does, " +
+		"counters compared with the exactly-once totals after all goroutines finished. non-trivial = some call changed a counter; " +
 		"distinct = history up to renaming of ids"
 	if c.Replay != "" {
 		var cs Case
@@ -977,6 +985,20 @@ func main() {
 		run(c, (&gen{r: br, base: next()}).bigRound(K, false))
 	}
 	run(c, (&gen{r: br, base: next()}).bigRound(290+br.Intn(20), true))
+	// overlapping submissions of several proposers sharing signers (oracle only)
+	cr := c.Rng.Fork("concurrent")
+	concs := []ConcSpec{
+		{Proposers: 4, Watchers: 12, Rounds: 25, PerRound: 8, Day: 20000, AllSign: true},
+		{Proposers: 6, Watchers: 10, Rounds: 12, PerRound: 6, Day: 20010, NextDayFrom: 7},
+	}
+	for i := 0; i < c.Scale(0, 10); i++ {
+		concs = append(concs, ConcSpec{Proposers: cr.Range(2, 8), Watchers: cr.Range(1, 30), Rounds: cr.Range(5, 40),
+			PerRound: cr.Range(1, 25), Day: uint64(cr.Range(19000, 21000)), NextDayFrom: cr.Intn(10), AllSign: cr.Chance(1, 3)})
+	}
+	for _, sp := range concs {
+		sp.Base, sp.Seed = next(), cr.U64()>>1
+		run(c, Case{Kind: "concurrent", Oracle: true, NoModel: true, Conc: &sp})
+	}
 	n := c.Scale(300, 10000)
 	refused := []string{"gap", "missing", "mixedday", "zerots", "zerohash", "noleader"}
 	accepted := []string{"duphash", "emptysigners", "compensate", "dupsigner", "creditflip", "nocredit-garbage"}
